@@ -32,7 +32,7 @@ ASSUMPTIONS = [
     "children of a strategy have distinct names (the code keeps them in a dict)",
     "prices of held securities are positive and finite on every date (a matured security must keep a price until it is closed, as the docstring demands); "
     "zero prices are generated in the ill-formed stream only",
-    "roll targets are not themselves due to roll or close on the date they receive a position (chains are replayed by the model but not judged by the monitor)",
+    "roll chains (a target that is itself due to roll in the same call) are generated, replayed by the model and judged by the monitor: every matured position moves once, as it stood before the call; a roll target with a *close* date on the date it receives a position is not generated",
     "root.update(now) at the end of close / roll is the engine's (C01-C08), not re-modelled here; a security's own `now` is an input of each replayed call",
     "monitor tolerance 1e-9 * gross exposure for relations computed in doubles",
 ]
@@ -424,9 +424,20 @@ def gen_life_case(rng, lazy_mode=None, reopen=None, fi=None, mode=None):
         if rng.random() < 0.75:
             f = rng.choice([1.0, 2.0, 0.5, 1.25, rng.uniform(0.2, 3.0)])
             roll[s] = [rng.choice([None] + list(range(1, T)) * 3), rng.choice(tgts), f]
-    if rng.random() < 0.15 and roll:      # a source that also has a close date
+    if rng.random() < 0.35 and roll:
+        # a chain: a roll target that is itself due to roll, mostly in the same call as one of its sources (every matured position
+        # moves once, at its own factor, as it stood before the call - whatever the order of the children)
         s = rng.choice(sorted(roll))
-        close[s] = rng.choice(range(T))
+        x = roll[s][1]
+        ys = [n for n in free if n != x and roll.get(n, [None, None])[1] != x]
+        if ys:
+            roll[x] = [roll[s][0] if rng.random() < 0.75 else rng.choice([None] + list(range(1, T)) * 3), rng.choice(ys),
+                       rng.choice([1.0, 2.0, 0.5, 1.25, rng.uniform(0.2, 3.0)])]
+    if rng.random() < 0.15 and roll:      # a source that also has a close date (never a name that something rolls into)
+        cands = sorted(k for k in roll if k not in {v[1] for v in roll.values()})
+        s = rng.choice(cands) if cands else None
+        if s is not None:
+            close[s] = rng.choice(range(T))
     spec["close"] = close
     spec["roll"] = roll
     st = tree["stack"]
@@ -1266,7 +1277,14 @@ def mon_roll(spec, e, seen, dates, V):
             V("C20/roll:source-left-open", "%s (roll date %s) still holds %r after the roll on %s" % (nm, dates[rd[nm][0]].date(), post[nm]["pos"], e["date"].date()))
     gross = sum(abs(float(rd[nm][2]) * pre[nm]["pos"]) for nm in fresh) + 1.0
     for nm in set(pre) | set(post):
-        if nm in chain or nm in fresh:
+        if nm in chain:
+            # matured itself and credited in the same call: its own (pre-call) position has left, what its sources rolled in stays
+            p1 = post[nm]["pos"] if nm in post else 0.0
+            if not (not e["fi"] and (pre[nm]["price"] is None or pre[nm]["price"] == 0)) and not close_num(p1, credit[nm], gross):
+                V("C20/roll:chain-moved-twice-or-lost", "%s matured in the same call as its sources %r: holds %r afterwards, expected %r (= sum factor x position "
+                  "of the sources; its own %r moves on to %s)" % (nm, [s for s in fresh if rd[s][1] == nm], p1, credit[nm], pre[nm]["pos"], rd[nm][1]))
+            continue
+        if nm in fresh:
             continue
         p0 = pre[nm]["pos"] if nm in pre else 0.0
         p1 = post[nm]["pos"] if nm in post else 0.0
